@@ -128,7 +128,7 @@ def run(s):
                         pass
                     judge(s, docs, allow, how, cfg, (n_c, n_d, n_o, n_r, two), tmpdir)
         if not q:
-            for i in range(1500):
+            for i in range(10000):
                 if not s.mine(i):
                     continue
                 rng = s.rng('rand', i)
